@@ -15,7 +15,26 @@ crash-free run; the completed steps are exactly the crash-free sequence (none tw
 order); no directory of a completed step is touched by a removal; a retrospective step's input screen is the
 advanced screen of its predecessor; the final tree (hence every recorded selection) is the crash-free one.
 Tie: the derived per-invocation interruption schedule is replayed by the Lean model (`run` op), event
-trace and final tree must be identical; `examine` is also tied on random directory trees.
+trace and final tree must be identical; `examine` is also tied on random directory trees.  The next-step
+arithmetic of `examine_output_dir_to_determine_current_iteration` is additionally under the translator
+(module `Orch`, proved equal to the model's `nextOf` in `Lemmas/OrchGenerated.lean`).
+
+Known finding `C19:prospective-marker-first` -- the matcher (`signature`) is deliberately narrow: prospective mode,
+marker-first workflow, an interruption during a plate_0 step after the marker and before its last publication, the
+finding concerns something AFTER that launch, its kind is one the finding explains (never a deleted or re-launched
+completed step) and the launch following the interrupted one is its successor.  Everything else is reported as new.
+
+Mutants tried by the auditor (a-c19), all caught with a concrete replay unless noted:
+  lexicographic `sorted(iter_dirs)` (needs iter_10: config B=1 P=11 / prospective pre=10; was MISSED before);
+  arithmetic wrong only for batch size 4 (`min(batch_size-1, 2)`; quick tier had no batch 4 before);
+  arithmetic wrong only from iteration 3 on; `>` for `>=`; `len(plate_dirs) >= batch_size` (translator refuses + replay);
+  prospective step function auto-resuming a named directory without deleting it first (excludes its own aborted choice,
+  reported as NEW in the marker-first configurations); `advanced_screen.h5` accepted as completion marker;
+  error message naming the iteration directory (oracle `deleted` now sees completed steps below a named directory);
+  trailing marker-less directory skipped when it holds a selected_plate; empty-iteration arithmetic wrong for batch 1 only.
+  Property-preserving (reported as `no-failing-input-found` because the examine tie breaks on unreachable trees):
+  `continue` -> `break` for an empty iteration directory; silently re-using an empty plate directory.
+  Equivalent rewrite `current_plate_idx + 1 >= batch_size` (or swapped branches): passes (exit 0).
 """
 import glob as globmod
 import importlib.util
@@ -34,6 +53,8 @@ RULE = ("retrospective and prospective runs of the real script over a fake pipel
         "every single interruption point for batch 1-4 and <=5 plates (pairs for the smallest configurations) + runs reaching "
         "iter_10/iter_11 (two-digit directory indices); thorough: every single and every pair of "
         "interruption points, batch 1-4, <=9 plates, both modes; plus random directory trees for `examine`. "
+        "Retrospective configurations also publish 0-2 files AFTER the marker (model evaluation: invisible to the script, "
+        "absent from the model), each an interruption point. "
         "Non-trivial: at least one interruption that hit after the output directory existed.")
 
 M = 2147483647
